@@ -8,6 +8,11 @@ import (
 	pb "git.sr.ht/~adrian-blx/psa-dhcp/lib/server/proto"
 )
 
+const (
+	maxOptionLen    = 255       // A DHCP option stores the length of its payload in a single byte.
+	maxLeaseSeconds = 1<<32 - 1 // The lease duration option is an unsigned 32 bit number of seconds.
+)
+
 type LeaseOptions struct {
 	IP            net.IP        // Static IP of a lease.
 	Domain        string        // Domain to announce.
@@ -26,6 +31,10 @@ func ParseConfig(conf *pb.ServerConfig) (*LeaseOptions, *net.IPNet, error) {
 		return nil, nil, fmt.Errorf("failed to parse network string '%s': %v", conf.GetNetwork(), err)
 	}
 
+	if len(conf.GetDomain()) > maxOptionLen {
+		return nil, nil, fmt.Errorf("domain is too long for a dhcp option (%d > %d bytes)", len(conf.GetDomain()), maxOptionLen)
+	}
+
 	lopts := &LeaseOptions{
 		Domain:  conf.GetDomain(),
 		Netmask: ipnet.Mask,
@@ -35,6 +44,8 @@ func ParseConfig(conf *pb.ServerConfig) (*LeaseOptions, *net.IPNet, error) {
 		return nil, nil, fmt.Errorf("failed to parse duration from string '%s': %v", conf.GetLeaseDuration(), err)
 	} else if ld < time.Minute {
 		return nil, nil, fmt.Errorf("lease duration must be at least one minute, found %s", ld)
+	} else if ld/time.Second > maxLeaseSeconds {
+		return nil, nil, fmt.Errorf("lease duration %s does not fit into a dhcp option", ld)
 	} else {
 		lopts.LeaseDuration = ld
 	}
@@ -86,7 +97,9 @@ func SetClientOverrides(original *LeaseOptions, client *pb.ClientConfig) error {
 		opts.NTP = ntp
 	}
 
-	if hn := client.GetHostname(); hn != "" {
+	if hn := client.GetHostname(); len(hn) > maxOptionLen {
+		return fmt.Errorf("hostname is too long for a dhcp option (%d > %d bytes)", len(hn), maxOptionLen)
+	} else if hn != "" {
 		opts.Hostname = hn
 	}
 	// all done, update original reference.
@@ -97,6 +110,10 @@ func SetClientOverrides(original *LeaseOptions, client *pb.ClientConfig) error {
 func ipv4(list ...string) ([]net.IP, error) {
 	if len(list) == 1 && list[0] == "" {
 		return nil, nil
+	}
+
+	if 4*len(list) > maxOptionLen {
+		return nil, fmt.Errorf("%d addresses do not fit into a dhcp option", len(list))
 	}
 
 	var res []net.IP
